@@ -11,7 +11,8 @@
 //	verifhook.Yield("sync.exit")          before a statement that calls x.Unlock() / x.RUnlock() (also deferred ones)
 //	verifhook.Yield("sync.atomic", line)  before a statement that calls atomic.* or an atomic-looking method
 //	verifhook.Yield("sync.wait", line)    before x.Wait() / once.Do(...) (Do is bracketed by enter/exit)
-//	verifhook.Yield("chan.op", line)      before a statement with a channel send / receive / select
+//	verifhook.Yield("chan.op", line)      before a statement with a channel send / receive / select; a send is followed by
+//	                                      "sync.enter", a receive preceded by "sync.exit" (a channel used as a semaphore)
 //	verifhook.Yield("go.stmt", line)      before and after a go statement
 //	verifhook.Yield("go.entry", line)     first statement of a function literal started by go / x.Go / x.TryGo
 //
@@ -41,7 +42,7 @@ var atomicMethods = map[string]bool{"CompareAndSwap": true, "Swap": true, "Load"
 var waitNames = map[string]bool{"Wait": true}
 
 type kinds struct {
-	lock, unlock, atomic, wait, once, chanop bool
+	lock, unlock, atomic, wait, once, chanop, send, recv bool
 }
 
 // classify looks at the expressions evaluated by the statement itself, not at nested blocks or function literals.
@@ -54,10 +55,10 @@ func classify(n ast.Node) (k kinds) {
 		case *ast.FuncLit, *ast.BlockStmt:
 			return false
 		case *ast.SendStmt:
-			k.chanop = true
+			k.chanop, k.send = true, true
 		case *ast.UnaryExpr:
 			if v.Op == token.ARROW {
-				k.chanop = true
+				k.chanop, k.recv = true, true
 			}
 		case *ast.CallExpr:
 			if sel, ok := v.Fun.(*ast.SelectorExpr); ok {
@@ -167,6 +168,8 @@ func (rw *rewriter) list(in []ast.Stmt) []ast.Stmt {
 			k.wait = k.wait || kk.wait
 			k.once = k.once || kk.once
 			k.chanop = k.chanop || kk.chanop
+			k.send = k.send || kk.send
+			k.recv = k.recv || kk.recv
 		}
 		ln := rw.line(s)
 		_, isSelect := s.(*ast.SelectStmt)
@@ -225,6 +228,15 @@ func (rw *rewriter) list(in []ast.Stmt) []ast.Stmt {
 		}
 		if k.chanop || isSelect {
 			pre = append(pre, yieldStmt("chan.op", ln))
+		}
+		// a channel may be a semaphore (send = acquire, receive = release): what was sent and not yet received back
+		// counts like a held lock. For other uses of channels the count is wrong in the safe direction: a goroutine
+		// whose count stays above zero is simply never parked again.
+		if k.send && !k.recv && !isSelect {
+			post = append(post, yieldStmt("sync.enter", 0))
+		}
+		if k.recv && !k.send && !isSelect {
+			pre = append(pre, yieldStmt("sync.exit", 0))
 		}
 		if isGo {
 			pre = append(pre, yieldStmt("go.stmt", ln))
